@@ -129,7 +129,7 @@ def run(ctx):
                 nsamples += 1
     ctx.rule = ("every expression of the conformance corpus (own bindings) and every generated term (leaves; level 1: every operator, function, method, macro, index, select, has, "
                 "?: applied to every leaf tuple; level 2: roots over typed level-1 results, the eight error leaves and literal spellings; size-limit family) x activations "
-                "{empty, all variables bound, variables bound to wrong kinds}; a case is (expression, activation); both runners evaluate it in separate processes; distinct by construction")
+                "{empty, all variables bound, variables bound to wrong kinds, a proper subset of the variables bound, empty again} applied in that order to one program object per runner; a case is (expression, activation); both runners evaluate it in separate processes; distinct by construction")
     ctx.assumptions = ["terms beyond two operator levels only through the corpus and the size-limit family", "protobuf message construction only as far as the corpus exercises it"]
 
 
@@ -141,8 +141,15 @@ def replay(w):
     # the two runner kinds must not share a process: fork for each
     from ..explore import sched
     res = {}
+    seq = [acts[n] for n in gen.activation_sequence(wit["activation"])[:-1]] if wit.get("bindings_src") is None else []
+
+    def one(k):
+        prog = celrun.Prog(k, wit["expr"], package=wit.get("package"))
+        for earlier in seq:                         # the same program object has been evaluated under the earlier activations
+            prog.eval(dict(earlier))
+        return prog.eval(dict(b))
     for k in ("I", "C"):
-        res[k] = sched.run_in_fork(lambda k=k: celrun.Prog(k, wit["expr"], package=wit.get("package")).eval(dict(b)))[1]
+        res[k] = sched.run_in_fork(lambda k=k: one(k))[1]
     print(wit["expr"], "activation", wit["activation"], "-> interpreted", outcome.short(res["I"]), "compiled", outcome.short(res["C"]))
     bad = diverges(res["I"], res["C"])
     print("REPRODUCED" if bad else "not reproduced")
